@@ -1,13 +1,13 @@
 package drivers
 
 import (
-	"strings"
 	"bytes"
 	"encoding/json"
 	"io"
 	"os"
 	"runtime"
 	"runtime/debug"
+	"strings"
 	"sync"
 	"time"
 
